@@ -33,6 +33,9 @@ RULE = ('three streams: (conf) product of presence/absence and values of NDN_CLI
         'mixed case, unsupported schemes, names / IPv4 / bracketed IPv6 (valid, invalid, unbalanced), ports absent, empty, '
         '0, 1..65535, 65536+, zero-padded, non-numeric, unix URIs with 0-3 slashes, query, fragment, plus random ASCII '
         'strings; (kc) pib/tpm strings with supported, off-platform and unknown schemes, with and without colon. '
+        'targeted streams: empty-string environment variables, no / only a later / every candidate file, a first file lacking a '
+        'key a later one has, values containing = # ; :, CRLF and unterminated files, unix://<absolute path> URIs, all '
+        'scheme x host x port corners; the platform defaults themselves are judged against the documented Linux table. '
         'non-trivial = conf: a result was returned and at least one of environment/file contributed; face: a face was '
         'returned; kc: a keychain was constructed')
 
@@ -79,7 +82,10 @@ class Virt:
     def _open(self, path, mode='r', *a, **k):
         path = os.fspath(path)
         if path in self.files and 'w' not in mode and 'a' not in mode and '+' not in mode:
-            return io.StringIO(self.files[path]) if 'b' not in mode else io.BytesIO(self.files[path].encode())
+            if 'b' in mode:
+                return io.BytesIO(self.files[path].encode())
+            # text mode as the built-in open does it: universal newlines (a CRLF file reads as LF)
+            return io.TextIOWrapper(io.BytesIO(self.files[path].encode()), encoding='utf-8', newline=k.get('newline'))
         raise FileNotFoundError(2, 'No such file or directory (virtual)', path)
 
     def __enter__(self):
@@ -197,12 +203,13 @@ end Ndn.Gen.C20
 
 # ------------------------------------------------------------------------------ cases
 HOMES = ['/home/u', '/root', '/h']
-ABS_LOCS = ['/var/lib/ndn/pib', '/data/keys', '/k']
-REL_LOCS = ['keys', 'sub/pib', '../k', 'ndnsec-key-file']
+ABS_LOCS = ['/var/lib/ndn/pib', '/data/keys', '/k', '/data/k=1', '/srv/a#b;c']
+REL_LOCS = ['keys', 'sub/pib', '../k', 'ndnsec-key-file', 'k=v/pib', './keys']
 PIB_SCHEMES = ['pib-sqlite3', 'pib-sqlite3', 'pib-memory', 'x', '']
 TPM_SCHEMES = ['tpm-file', 'tpm-file', 'tpm-memory', 'y', '']
 TRANSPORTS = ['unix:///run/nfd/nfd.sock', 'unix:///tmp/n.sock', 'tcp://localhost:6363', 'udp4://10.0.0.1',
-              'tcp://[::1]:7000', 'bogus://x', '', 'tcp4://router.example.net:9000']
+              'tcp://[::1]:7000', 'bogus://x', '', 'tcp4://router.example.net:9000', 'unix:///tmp/a=b.sock',
+              'udp6://[::1]:6363', 'unix:///run/x.sock?a=b:c#d=e', 'tcp://h:1=2']
 
 
 def _store_value(rng, key, plat):
@@ -241,7 +248,7 @@ def _file_lines(rng, plat):
     return lines
 
 
-def render(lines):
+def render(lines, eol='\n', final=True):
     out = []
     for l in lines:
         if l[0] == 'c':
@@ -251,7 +258,7 @@ def render(lines):
         else:
             _, k, v, style = l
             out.append([f'{k}={v}', f'{k} = {v}', f'{k}: {v}', f'{k}  =  {v}  '][style % 4])
-    return '\n'.join(out) + '\n'
+    return eol.join(out) + (eol if final else '')
 
 
 def _conf_case(rng):
@@ -282,7 +289,52 @@ def _conf_case(rng):
     for s in ['/run/nfd/nfd.sock', '/run/nfd.sock']:
         if rng.random() < 0.5:
             exists.append(s)
-    return {'op': 'conf', 'home': home, 'env': env, 'files': files, 'exists': sorted(set(exists))}
+    case = {'op': 'conf', 'home': home, 'env': env, 'files': files, 'exists': sorted(set(exists))}
+    r = rng.random()
+    if r < 0.25:
+        case['eol'] = rng.choice(['crlf', 'crlf', 'lf-nofinal', 'crlf-nofinal'])
+    return case
+
+
+def _render_case(case, ls):
+    e = case.get('eol', 'lf')
+    return render(ls, '\r\n' if e.startswith('crlf') else '\n', not e.endswith('nofinal'))
+
+
+def _targeted_conf():
+    """the corners of the precedence product, each on purpose: environment variables set to the empty string over a
+    file that has values; NDN_CLIENT_* set while no file exists; only the last / only a middle candidate exists; every
+    candidate exists with a different value; the first existing file lacks the key a later one has; values containing
+    the delimiters = and : ; CRLF files"""
+    home = '/home/u'
+    plat = live_platform(home)
+    paths = plat['conf_paths']
+    full = lambda tag: [['kv', 'transport', 'tcp://%s:1' % tag, 0], ['kv', 'pib', 'pib-sqlite3:/p/%s' % tag, 1],     # noqa
+                        ['kv', 'tpm', 'tpm-file:/t/%s' % tag, 2]]
+    allex = ['/p/%d' % i for i in range(4)] + ['/t/%d' % i for i in range(4)] + plat['pib_paths'] + plat['tpm_paths']
+    none = {k: None for k in ENVKEYS}
+    for eol in ('lf', 'crlf'):
+        for envv in ('', 'x'):
+            for ks in (ENVKEYS, ['transport'], ['pib'], ['tpm'], ['pib', 'tpm']):
+                env = {k: ((envv if k == 'transport' or not envv else 'x:/p/0') if k in ks else None) for k in ENVKEYS}
+                yield {'op': 'conf', 'home': home, 'env': env, 'files': [[paths[0], full('0')]], 'exists': allex, 'eol': eol}
+                yield {'op': 'conf', 'home': home, 'env': env, 'files': [], 'exists': allex, 'eol': eol}
+                yield {'op': 'conf', 'home': home, 'env': env, 'files': [], 'exists': [], 'eol': eol}
+        for i in range(len(paths)):
+            yield {'op': 'conf', 'home': home, 'env': none, 'files': [[paths[i], full(str(i))]], 'exists': allex, 'eol': eol}
+            yield {'op': 'conf', 'home': home, 'env': none, 'files': [[paths[j], full(str(j))] for j in range(i, len(paths))],
+                   'exists': allex, 'eol': eol}
+            yield {'op': 'conf', 'home': home, 'env': none, 'files': [[paths[j], full(str(j))] for j in reversed(range(i, len(paths)))],
+                   'exists': allex[:3], 'eol': eol}
+            for k in range(3):
+                # the first existing file lacks one key which a later file has: the platform default applies, not the later file
+                fs = [[paths[i], full(str(i))[:k] + full(str(i))[k + 1:]]] + [[paths[j], full(str(j))] for j in range(i + 1, len(paths))]
+                yield {'op': 'conf', 'home': home, 'env': none, 'files': fs, 'exists': allex, 'eol': eol}
+        for v in ('unix:///tmp/a=b.sock', 'tcp://h:1=2', 'unix:///x?a=b:c', 'udp6://[::1]:6363', 'tcp://[fe80::1]'):
+            for style in range(4):
+                yield {'op': 'conf', 'home': home, 'env': none, 'eol': eol, 'exists': ['/data/k=1', '/etc/ndn/k=v/pib'],
+                       'files': [[paths[3], [['kv', 'transport', v, style], ['kv', 'pib', 'pib-sqlite3:/data/k=1', style],
+                                             ['kv', 'tpm', 'tpm-file:k=v/pib', style]]]]}
 
 
 FACE_SCHEMES = ['unix', 'tcp', 'tcp4', 'tcp6', 'udp', 'udp4', 'udp6']
@@ -323,6 +375,25 @@ def _face_case(rng):
     return {'op': 'face', 'uri': uri, 'gen': 'structured', 'scheme': scheme, 'host': host, 'port': port, 'sep': sep}
 
 
+UNIX_PATHS = ['/run/nfd/nfd.sock', '/run/nfd.sock', '/tmp/n.sock', '/A/b', '/a=b.sock', '/tmp/x-y_z.1/s', '/s', '/var/run/a+b@c',
+              '/tmp//a', '/a/../b', '/a/./b/', '/tmp/nfd.sock/']
+
+
+def _unix_case(rng):
+    return {'op': 'face', 'uri': _mixcase(rng, 'unix') + '://' + rng.choice(UNIX_PATHS), 'gen': 'unix-abs'}
+
+
+def _targeted_face():
+    for p in UNIX_PATHS:
+        for sch in ('unix', 'UNIX', 'Unix'):
+            yield {'op': 'face', 'uri': sch + '://' + p, 'gen': 'unix-abs'}
+    for scheme in FACE_SCHEMES[1:] + ['TCP', 'Udp6', 'ws', 'tcp7', 'udpx', 'tcpx', 'unix6', 'xtcp']:
+        for host in ('[::1]', 'localhost', '192.0.2.7', '[2001:db8::A]'):
+            for port in (None, '', '1', '6363', '65535', '0', '65536', '06363'):
+                yield {'op': 'face', 'uri': scheme + '://' + host + ('' if port is None else ':' + port), 'gen': 'structured',
+                       'scheme': scheme.lower(), 'host': host, 'port': port, 'sep': '://'}
+
+
 def _kc_case(rng):
     pib = rng.choice(['pib-sqlite3:/a/b', 'pib-sqlite3:', 'pib-sqlite3', 'pib-memory:', 'pib-sqlite3:rel', 'pib-sqlite3:/a/',
                       'pib-sqlite3:/a:b', 'PIB-SQLITE3:/a', ':', ''])
@@ -332,11 +403,13 @@ def _kc_case(rng):
 
 
 def cases(rng, tier):
+    yield from _targeted_conf()
+    yield from _targeted_face()
     n = 2500 if tier == 'quick' else 60000
     for i in range(n):
         yield _conf_case(rng)
     for i in range(n):
-        yield _face_case(rng)
+        yield _face_case(rng) if rng.random() < 0.93 else _unix_case(rng)
     for i in range(n // 5):
         yield _kc_case(rng)
 
@@ -388,7 +461,7 @@ def _bracket_ok(uri):
 
 def run_impl(case):
     if case['op'] == 'conf':
-        files = {p: render(ls) for p, ls in case['files']}
+        files = {p: _render_case(case, ls) for p, ls in case['files']}
         with Virt(case['home'], case['exists'], files, case['env']) as v:
             p = _platform()
             plat = {'conf_paths': list(p.client_conf_paths()), 'default_transport': p.default_transport(),
@@ -514,10 +587,29 @@ def _first_file_value(case, plat, key):
     return None, None, True
 
 
+def _spec_platform(home, present):
+    """the Linux defaults as documented for NDN client configuration (ndn-cxx `ndn-client.conf` manual / python-ndn docs):
+    search order user file, /usr/local/etc, /opt/local/etc, /etc; SQLite PIB in ~/.ndn; file TPM in ~/.ndn/ndnsec-key-file;
+    NFD's Unix socket /run/nfd/nfd.sock, the pre-2022 location /run/nfd.sock only when that one alone exists"""
+    old_only = '/run/nfd/nfd.sock' not in present and '/run/nfd.sock' in present
+    return {'conf_paths': [home + '/.ndn/client.conf', '/usr/local/etc/ndn/client.conf', '/opt/local/etc/ndn/client.conf',
+                           '/etc/ndn/client.conf'],
+            'default_transport': 'unix:///run/nfd.sock' if old_only else 'unix:///run/nfd/nfd.sock',
+            'pib_scheme': 'pib-sqlite3', 'tpm_scheme': 'tpm-file',
+            'pib_paths': [home + '/.ndn'], 'tpm_paths': [home + '/.ndn/ndnsec-key-file']}
+
+
 def oracle(case, impl):
     if case['op'] == 'conf':
         plat = impl['platform']
         present = set(case['exists']) | {p for p, _ in case['files']}
+        # the platform defaults are judged against the documented ones, not taken on trust from the code under test
+        import sys
+        if sys.platform.startswith('linux'):
+            spec = _spec_platform(case['home'], present)
+            for k, v in spec.items():
+                if plat.get(k) != v:
+                    return f'platform default {k} is {plat.get(k)!r}, documented {v!r}'
         exp = {}
         conf = None
         for k in ENVKEYS:
@@ -560,6 +652,27 @@ def oracle(case, impl):
                 continue            # nothing exists: the statement names no location to use
             if gloc != want:
                 return f'{k}: location {gloc!r} used, expected {want!r}'
+        return None
+    if case['op'] == 'face' and case.get('gen') == 'unix-abs':
+        # unix://<absolute path> denotes the Unix-socket face at exactly that path
+        want = ['UnixFace', case['uri'][len('unix://'):]]
+        if impl['raised'] or impl['face'] != want:
+            return f'URI denotes {want}, got {impl["face"] or impl["raised"]}'
+        return None
+    if case['op'] == 'kc':
+        # a store setting "scheme:location" of a supported scheme is used at the location as given
+        mp = re.fullmatch(r'pib-sqlite3:(/.*)', case['pib'])
+        mt = re.fullmatch(r'tpm-file:(/.*)', case['tpm'])
+        if mp and mt:
+            if impl['raised']:
+                return f"default_keychain raised {impl['raised']} for supported schemes with locations"
+            if len(impl['made']) != 1:
+                return 'default_keychain did not build exactly one keychain'
+            db, tp = impl['made'][0]
+            if tp != mt.group(1):
+                return f'key store opened at {tp!r}, configured {mt.group(1)!r}'
+            if not isinstance(db, str) or posixpath.dirname(db) != (mp.group(1).rstrip('/') or '/'):
+                return f'public-information store opened at {db!r}, not inside the configured {mp.group(1)!r}'
         return None
     if case['op'] == 'face':
         if case.get('gen') != 'structured' or case['sep'] != '://':
